@@ -514,8 +514,18 @@ class UnitsExecutor(Executor):
             st.assume(sq.length >= 0)
             st.heap[ref] = HeapObj("alist", sq, None, o.fresh)
 
-        for n in body:
+        work = [(n, 0) for n in body]
+        expanded = set()
+        while work:
+            n, depth = work.pop()
             for sub in ast.walk(n):
+                if isinstance(sub, ast.Call) and depth < 3 and id(sub) not in expanded:
+                    # a helper of the same module / a nested function: its effect on the caller's objects is the effect of its
+                    # body with the parameters replaced by the argument expressions (followed in place, not guessed)
+                    inl = self._callee_body_for(st, sub)
+                    if inl is not None:
+                        expanded.add(id(sub))
+                        work.extend((x, depth + 1) for x in inl)
                 if isinstance(sub, ast.Attribute) and isinstance(sub.ctx, ast.Store):
                     b = self._resolve(st, sub.value)
                     if isinstance(b, VRef) and st.obj(b.ref).kind == "obj":
@@ -545,6 +555,9 @@ class UnitsExecutor(Executor):
                             o = st.obj(b.ref)
                             if o.kind in ("list", "alist") and sub.func.attr in MUTATORS:
                                 havoc_list(b.ref)
+                            elif o.kind in ("dict", "amap") and sub.func.attr in ("setdefault", "update", "pop", "clear", "popitem"):
+                                dflt = sub.args[1] if sub.func.attr == "setdefault" and len(sub.args) == 2 else None
+                                self.amap_havoc(st, b.ref, "list" if isinstance(dflt, (ast.List, ast.ListComp)) else "other")
                             elif o.kind in ("list", "alist", "dict", "amap"):
                                 pass          # non-mutating method of a container
                             elif o.kind == "obj":
@@ -558,7 +571,7 @@ class UnitsExecutor(Executor):
                     for a in list(sub.args) + [k.value for k in sub.keywords]:
                         if isinstance(a, (ast.Name, ast.Attribute)):
                             b = self._resolve(st, a)
-                            if isinstance(b, VRef) and self._call_may_mutate(st, sub):
+                            if isinstance(b, VRef) and id(sub) not in expanded and self._call_may_mutate(st, sub):
                                 fallback.add(b.ref)
                 elif isinstance(sub, ast.AugAssign) and isinstance(sub.target, ast.Name):
                     b = st.lookup(sub.target.id)
@@ -568,6 +581,47 @@ class UnitsExecutor(Executor):
             o = st.heap.get(ref)
             if o is not None:
                 st.heap[ref] = HeapObj("unk", None, o.cls, False)
+
+    def _callee_node(self, st, call):
+        f = call.func
+        if isinstance(f, ast.Name):
+            v = st.lookup(f.id)
+            if isinstance(v, VFunc) and v.how == "closure" and isinstance(v.a, ast.FunctionDef):
+                return v.a, False
+            if v is None and f.id in self.module.functions and self.reg.get(f"{self.module.rel}::{f.id}") is None:
+                return self.module.functions[f.id], False
+        return None, False
+
+    def _callee_body_for(self, st, call):
+        """Body of a same-module helper / nested function called with plain arguments, with its parameters replaced by the
+        argument expressions (copies); None when the call is not of that kind."""
+        import copy
+        fn, _m = self._callee_node(st, call)
+        if fn is None or call.keywords and any(k.arg is None for k in call.keywords):
+            return None
+        params = [a.arg for a in fn.args.posonlyargs + fn.args.args]
+        if len(call.args) > len(params) or any(isinstance(a, ast.Starred) for a in call.args):
+            return None
+        amap = dict(zip(params, call.args))
+        for k in call.keywords:
+            amap[k.arg] = k.value
+        if not all(isinstance(a, (ast.Name, ast.Attribute, ast.Constant)) for a in amap.values()):
+            return None
+
+        class Sub(ast.NodeTransformer):
+            def visit_Name(self, node):
+                if node.id in amap and isinstance(node.ctx, ast.Load):
+                    return copy.deepcopy(amap[node.id])
+                return node
+
+            def visit_Attribute(self, node):
+                node = self.generic_visit(node)
+                return node
+
+        body = [Sub().visit(copy.deepcopy(x)) for x in fn.body]
+        for b in body:
+            ast.fix_missing_locations(b)
+        return body
 
     def _fallback_refs(self, st, e, acc):
         while isinstance(e, (ast.Subscript, ast.Attribute)):
@@ -618,6 +672,10 @@ class UnitsExecutor(Executor):
             sq = st.obj(args[0].ref).data
             return [(st, self.new_alist(st, sq) if name == "list" else sq)]
         return super().b_collection(st, name, args, node)
+
+    def b_zip(self, st, args, kwargs, node):
+        args = [st.obj(a.ref).data if isinstance(a, VRef) and st.obj(a.ref).kind == "alist" else a for a in args]
+        return super().b_zip(st, args, kwargs, node)
 
     def b_enumerate(self, st, args, kwargs, node):
         if args and isinstance(args[0], VRef) and st.obj(args[0].ref).kind == "alist":
@@ -806,9 +864,23 @@ class UnitsExecutor(Executor):
             if o.data.get("vkind") == "list" and isinstance(default, VRef) and st.obj(default.ref).kind in ("list", "alist"):
                 return [(st, self._amap_value(st, o))]
             return [(st, VUnk("map.get"))]
+        if name == "setdefault" and len(args) == 2 and isinstance(args[0], VInt):
+            # m.setdefault(k, d): afterwards k is present; the value is the stored one or d -- an unknown list when all values are lists
+            d = args[1]
+            is_list = isinstance(d, VRef) and st.obj(d.ref).kind in ("list", "alist")
+            data = dict(o.data)
+            data["vkind"] = ("list" if is_list else "other") if data.get("vkind") in (None, "list" if is_list else "other") else "other"
+            data["present"] = z3.Store(data["present"], ops.int_term(args[0]), z3.BoolVal(True))
+            self.note_store(st, obj.ref, node)
+            st.heap[obj.ref] = HeapObj("amap", data, None, o.fresh)
+            return [(st, self._amap_value(st, st.obj(obj.ref)))]
         raise Unsupported(f"{self.loc(node)} {name} on a map with symbolic keys")
 
     def dict_method(self, st, obj, mapping, name, args, kwargs, node, const):
+        if not const and name == "setdefault" and len(args) == 2 and isinstance(args[0], VInt) and args[0].const() is None and not mapping:
+            o = st.obj(obj.ref)
+            st.heap[obj.ref] = HeapObj("amap", {"present": z3.K(I, z3.BoolVal(False)), "vkind": None}, None, o.fresh)
+            return self.amap_method(st, obj, name, args, kwargs, node)
         if not const and name == "get" and args and isinstance(args[0], VInt) and args[0].const() is None and not mapping:
             return [(st, args[1] if len(args) > 1 else NONE)]
         return super().dict_method(st, obj, mapping, name, args, kwargs, node, const)
